@@ -79,6 +79,9 @@ def double(pt: Point2D[Field]) -> Point2D[Field]:
     if is_inf(pt) or pt is None:
         return pt
     x, y = pt
+    if y == y.zero():
+        # A point of order two doubles to the point at infinity
+        return None
     m = 3 * x**2 / (2 * y)
     newx = m**2 - 2 * x
     newy = -m * newx + m * x - y
